@@ -191,7 +191,7 @@ struct OpRecord {
     injective: Vec<(String, String, String, String)>,
 }
 
-fn run_op(sched: &Sched, me: usize, idx: usize, op: &SOp, alloc_seams: bool) -> OpRecord {
+fn run_op(sched: &Sched, me: usize, idx: usize, op: &SOp, alloc_seams: bool, lean: bool) -> OpRecord {
     let subj: Box<dyn Subject> = in_sim(|| subject(&op.what));
     let counts = IoCounts::default();
     let io = IoParams { seed: op.io_seed, counts: &counts };
@@ -224,7 +224,9 @@ fn run_op(sched: &Sched, me: usize, idx: usize, op: &SOp, alloc_seams: bool) -> 
         let out = with_library_seams(sched, me, alloc_seams, || caught(|| subj.ser(op.route, &cell, &io)));
         let s = cell.borrow();
         rec.ser_fired = s.fired;
-        ser_line = format!("{} calls={} fault={:?}", out.clone_show(), s.calls, s.fired);
+        if !lean {
+            ser_line = format!("{} calls={} fault={:?}", out.clone_show(), s.calls, s.fired);
+        }
         drop(s);
         if rec.ser_fired.is_none() {
             rec.judged += 1;
@@ -237,7 +239,7 @@ fn run_op(sched: &Sched, me: usize, idx: usize, op: &SOp, alloc_seams: bool) -> 
                             push(&mut rec, false, ("unit_not_variant_name".into(), subj.describe(), format!("\"{}\"", vn), form.show()));
                         }
                     }
-                    if faithful {
+                    if faithful && !lean {
                         rec.injective.push((subj.type_name(), form_space(op.route, op.io_seed).into(), form.show(), subj.ident()));
                     }
                     Some(form)
@@ -264,7 +266,9 @@ fn run_op(sched: &Sched, me: usize, idx: usize, op: &SOp, alloc_seams: bool) -> 
         let out = with_library_seams(sched, me, alloc_seams, || caught(|| subj.de(op.route, form, &cell, &io)));
         let s = cell.borrow();
         rec.de_fired = s.fired;
-        de_line = format!("{:?} calls={} fault={:?}", out, s.calls, s.fired);
+        if !lean {
+            de_line = format!("{:?} calls={} fault={:?}", out, s.calls, s.fired);
+        }
         drop(s);
         if rec.de_fired.is_none() {
             rec.judged += 1;
@@ -288,7 +292,9 @@ fn run_op(sched: &Sched, me: usize, idx: usize, op: &SOp, alloc_seams: bool) -> 
     }
     rec.short = counts.short.get();
     rec.interrupted = counts.interrupted.get();
-    rec.line = format!("t{} op{} {} via {} ser[{}] de[{}]{}", me, idx, subj.describe(), rname, ser_line, de_line, nested_line);
+    if !lean {
+        rec.line = format!("t{} op{} {} via {} ser[{}] de[{}]{}", me, idx, subj.describe(), rname, ser_line, de_line, nested_line);
+    }
     rec
 }
 
@@ -305,18 +311,33 @@ pub fn execute_mode(plan: &SPlan, free: bool) -> SRunResult {
         st.current = first;
     }
     let alloc_seams = plan.alloc_seams;
+    let lean = plan.lean;
+    let repeat = plan.repeat.max(1);
     let mut handles = Vec::new();
     for (me, ops) in plan.threads.iter().cloned().enumerate() {
         let sched = Arc::clone(&sched);
         handles.push(std::thread::spawn(move || {
             sched.start(me);
             let mut recs = Vec::new();
-            for (i, op) in ops.iter().enumerate() {
-                sched.seam(me, false);
-                recs.push(run_op(&sched, me, i, op, alloc_seams));
+            let mut lean_sum = (0u64, 0u64);
+            for rep in 0..repeat {
+                for (i, op) in ops.iter().enumerate() {
+                    sched.seam(me, false);
+                    let rec = run_op(&sched, me, rep as usize * ops.len() + i, op, alloc_seams, lean);
+                    if lean {
+                        // a soak run keeps counts and violations only
+                        lean_sum.0 += rec.judged;
+                        lean_sum.1 += 1;
+                        if !rec.violations.is_empty() && recs.len() < 8 {
+                            recs.push(rec);
+                        }
+                    } else {
+                        recs.push(rec);
+                    }
+                }
             }
             sched.finish(me);
-            recs
+            (recs, lean_sum)
         }));
     }
     let mut stats = SRunStats::default();
@@ -325,11 +346,15 @@ pub fn execute_mode(plan: &SPlan, free: bool) -> SRunResult {
     // (type, space, form) -> (ident, thread, op, subject-ish)
     let mut seen: std::collections::BTreeMap<(String, String, String), (String, usize, usize)> = std::collections::BTreeMap::new();
     for (t, h) in handles.into_iter().enumerate() {
-        let recs = h.join().expect("simulated caller thread died outside an operation");
+        let (recs, lean_sum) = h.join().expect("simulated caller thread died outside an operation");
+        stats.judged += lean_sum.0;
+        stats.ops += lean_sum.1;
         let mut faulted_before = false;
         for (i, r) in recs.into_iter().enumerate() {
-            stats.ops += 1;
-            stats.judged += r.judged;
+            if !lean {
+                stats.ops += 1;
+                stats.judged += r.judged;
+            }
             if faulted_before {
                 stats.ops_after_fault_same_thread += 1;
             }
@@ -371,7 +396,9 @@ pub fn execute_mode(plan: &SPlan, free: bool) -> SRunResult {
                     }
                 }
             }
-            log.push(r.line);
+            if !lean {
+                log.push(r.line);
+            }
         }
     }
     let st = sched.st.lock().unwrap();
